@@ -59,6 +59,11 @@ def type_of(kind):
                 if _k == "RegExMatch": kw.setdefault("to_match_regex", kw.get("to_match")); kw["to_match"] = kw.get("str_repr") or kw.get("to_match")
                 kw.setdefault("ignore_case", None); kw.setdefault("compile", pyeval.PyFn(lambda: None))
             if a and nodes is None and len(a) == 1 and isinstance(a[0], (list, tuple)) and not isa(_k, "Match"): a = tuple(a[0])        # Sequence([a, b])
+            # arpeggio's constructors read rule_name, root, nodes, suppress (ParsingExpression), ws / skipws (Sequence), eolterm / sep
+            # (Repetition) and the parameters of the Match classes; every other keyword argument is silently dropped
+            if not isa(_k, "Match"):
+                keep = {"suppress"} | ({"ws", "skipws"} if isa(_k, "Sequence") else set()) | ({"eolterm", "sep"} if isa(_k, "Repetition") else set())
+                kw = {k_: v_ for k_, v_ in kw.items() if k_ in keep or k_.startswith("_")}
             e_ = E(_k, *(list(nodes) if nodes is not None else list(a)), rule_name=rule_name, root=root, **kw)
             e_[".made_by_code"] = True
             return e_
